@@ -108,11 +108,13 @@ theorem solve_okOrN {E : String → Prop} (hf : FmaxOK α) (hw : E "argument not
     (hb : E "backtrack_search: fuel") {S : Solver α} (st : Settings α) (h : SolverInvN S) :
     OkOr E (S.solve st) (fun r => SolverInvN r.S) := by
   refine (solve_okOr (stagesQdldl hf hw hb S.st.data (S.st.cones.map ConeSt.kktSpec) st) h).mono
-    fun r hI => ?_
-  have e1 : r.S.st.data = S.st.data := hI.st.data
+    fun r hI' => ?_
+  obtain ⟨⟨nq, nb, hd⟩, _, hI⟩ := hI'
+  have en : r.S.st.data.n = S.st.data.n := by rw [hd]
+  have em : r.S.st.data.m = S.st.data.m := by rw [hd]
   have e2 : r.S.st.cones.map ConeSt.kktSpec = S.st.cones.map ConeSt.kktSpec := hI.st.specs
   unfold SolverInvN
-  rw [e1, e2]
+  rw [en, em, e2]
   exact hI
 
 /-- [S] **solve half, sharp form**: the sites a `solve()` can stop at are those of ITS OWN composite
@@ -121,11 +123,13 @@ nonsymmetric cone (`SiteFor`) -/
 theorem solve_okOrFor (hf : FmaxOK α) {S : Solver α} (st : Settings α) (h : SolverInvN S) :
     OkOr (SiteFor (S.st.cones.map ConeSt.kktSpec)) (S.solve st) (fun r => SolverInvN r.S) := by
   refine (solve_okOr (stagesFor (Or.inl hf) S.st.data (S.st.cones.map ConeSt.kktSpec) st
-    (fun he => Or.inl ⟨rfl, he⟩) (fun hn => Or.inr ⟨rfl, hn⟩)) h).mono fun r hI => ?_
-  have e1 : r.S.st.data = S.st.data := hI.st.data
+    (fun he => Or.inl ⟨rfl, he⟩) (fun hn => Or.inr ⟨rfl, hn⟩)) h).mono fun r hI' => ?_
+  obtain ⟨⟨nq, nb, hd⟩, _, hI⟩ := hI'
+  have en : r.S.st.data.n = S.st.data.n := by rw [hd]
+  have em : r.S.st.data.m = S.st.data.m := by rw [hd]
   have e2 : r.S.st.cones.map ConeSt.kktSpec = S.st.cones.map ConeSt.kktSpec := hI.st.specs
   unfold SolverInvN
-  rw [e1, e2]
+  rw [en, em, e2]
   exact hI
 
 /-- [S] a composite WITHOUT exponential cone: the only site left is the fuel of `backtrack_search` -/
@@ -146,19 +150,22 @@ theorem solve_ok_symmetric (hf : FmaxOK α) {S : Solver α} (st : Settings α) (
 
 /-- [S] **the invariant is kept by every `solve()` that returns** — no law of the scalar type at all
 (instantiate the stages with every panic site allowed): whatever a successful `solve()` leaves
-satisfies `SolverInvN` again, and it is anchored at the same data and cone layout -/
+satisfies `SolverInvN` again; it is anchored at the same cone layout and at the data at entry with the
+two norm caches filled (`Solver.fillNorms`: same `n`, `m`) -/
 theorem solve_inv_of_ok {S : Solver α} {st : Settings α} {r : SolveResult α} (h : SolverInvN S)
     (hr : S.solve st = .ok r) :
-    SolverInv (KktInvWN (S.st.cones.map ConeSt.kktSpec) S.st.data.n S.st.data.m) S.st.data
-      (S.st.cones.map ConeSt.kktSpec) r.S ∧ SolverInvN r.S := by
+    (Solver.fillNorms S.st.data = .ok r.S.st.data
+      ∧ SolverInv (KktInvWN (S.st.cones.map ConeSt.kktSpec) S.st.data.n S.st.data.m) r.S.st.data
+          (S.st.cones.map ConeSt.kktSpec) r.S) ∧ SolverInvN r.S := by
   have hs := solve_okOr (E := fun _ => True)
     (stagesQdldl' (Or.inr trivial) trivial trivial S.st.data (S.st.cones.map ConeSt.kktSpec) st) h
-  have hI := hs.of_ok hr
-  refine ⟨hI, ?_⟩
-  have e1 : r.S.st.data = S.st.data := hI.st.data
+  obtain ⟨⟨nq, nb, hd⟩, hfill, hI⟩ := hs.of_ok hr
+  refine ⟨⟨hfill, hI⟩, ?_⟩
+  have en : r.S.st.data.n = S.st.data.n := by rw [hd]
+  have em : r.S.st.data.m = S.st.data.m := by rw [hd]
   have e2 : r.S.st.cones.map ConeSt.kktSpec = S.st.cones.map ConeSt.kktSpec := hI.st.specs
   unfold SolverInvN
-  rw [e1, e2]
+  rw [en, em, e2]
   exact hI
 
 /-- the ordering handed to QDLDL is a permutation of the KKT dimension of the internal problem
